@@ -91,24 +91,25 @@ NOT_APPLICABLE = {}
 
 # clauses added after the first claim text was written (rounds 2 and 3); appended to the level text
 ADDENDA = {
- "C01": "R01.5: the audit-only region posts AUDIT_* events only.",
- "C02": "R02.5: the read-modify-write windows of two interchain records never overlap (source == destination pairs).",
+ "C14": "R14.3 accepts only a comparison of the address values (not of *types.Address pointers) as inequality guard.",
+ "C01": "R01.5: the audit-only region posts AUDIT_* events only. R01.3 also forbids a goroutine to read a captured variable the spawner keeps writing (range variables are shared across iterations under the module's go directive).",
+ "C02": "R02.5: the read-modify-write windows of two interchain records never overlap (source == destination pairs). R02.6: on every path of ProcessIBTP's request branch the counter is advanced and the record written back (acceptance consumes the index).",
  "C03": "R03.7: the verification groups cover the block; R03.8: no function reachable from CheckProof reads a VerifyPool container that is filled after construction (no memo of ledger data).",
  "C05": "R05.3 also decides bulk filing: all ids at once only behind the notify-source flag and under the shared source chain.",
- "C06": "R06.9: a list rewritten element by element in a loop is carried from one iteration to the next (fold coherence).",
+ "C06": "R06.9: a list rewritten element by element in a loop is carried from one iteration to the next (fold coherence). R06.10: expiry (getTimeoutIBTPsMap / setTimeoutRollback) runs after setTimeoutList, and additions are written back before removals.",
  "C07": "R07.6 (shared with R13.6): no dirty-set entry is removed and storageChange.revert stores the recorded previous value on every path.",
- "C08": "R08.4 also covers the optional callee: vm.Context.Callee / tx.GetTo() is dereferenced only behind its nil test in every function of the unrecovered path.",
+ "C08": "R08.4 also covers the optional callee: vm.Context.Callee / tx.GetTo() is dereferenced only behind its nil test in every function of the unrecovered path. R08.2 also requires a recovering goroutine to defer its WaitGroup.Done before anything that may panic.",
  "C09": "R09.7: on the chain-store persist path every write goes through the batch that carries the chain meta.",
- "C10": "R10.6 (shared with R13.6): no dirty-set entry is removed, so journal and state hash see every key the block touched.",
+ "C10": "R10.6 (shared with R13.6): no dirty-set entry is removed, so journal and state hash see every key the block touched. R10.7: the account-cache path and the database path of GetAccount initialise the same fields.",
  "C11": "R11.1 also forbids direct store writes on the persist path.",
  "C12": "R12.4 also decides the refusal window (exactly minJnlHeight > height, any spelling) and that a root not read from the target journal is stored only for height 0.",
- "C13": "R13.6: tombstones survive the undo (no Delete on dirtyState; the storage undo stores the recorded value, nil included, on every path).",
+ "C13": "R13.6: tombstones survive the undo (no Delete on dirtyState; the storage undo stores the recorded value, nil included, on every path). R13.5 also pairs the reset of nextRevisionId with the truncation of validRevisions.",
  "C15": "R15.6: electorate snapshot; R15.7: the electorate update reaches every non-final status.",
- "C16": "R16.7: every verdict of checkTargetAvailability is among the origins of the target error checkIBTP returns.",
- "C17": "R17.6: index -> record key agreement; R17.7: every role predicate of RoleManager decides on each of its parameters.",
+ "C16": "R16.7: every verdict of checkTargetAvailability is among the origins of the target error checkIBTP returns. R16.8: an AppchainManager entry that cascades PauseChainService does so on every successful path after the status change.",
+ "C17": "R17.6: index -> record key agreement; R17.7: every role predicate of RoleManager decides on each of its parameters. R17.8: no creating entry offers a direct self permission; R17.9: the permission kinds of every guarded entry stay within the frozen who-may-call table.",
  "C18": "R18.2 pairs marking and appending both ways.",
- "C19": "R19.4 requires the commit clamp to be exactly priorityIndex.size(); R19.5: key agreement of the pool indexes.",
- "C20": "R20.4: the applied index persisted by reportState is the one recorded for the reported height.",
+ "C19": "R19.4 requires the commit clamp to be exactly priorityIndex.size(); R19.5: key agreement of the pool indexes. R19.2 generalised: the map handed to a per-account structure is made in the same loop iteration.",
+ "C20": "R20.4: the applied index persisted by reportState is the one recorded for the reported height. R20.7: the raft snapshot payload carries n.lastExec, the height paired with appliedIndex.",
 }
 
 
